@@ -75,6 +75,23 @@ fn c14_replace_one_for_one() {
 }
 """), functions=["Syllable::replace_segment", "Syllable::get_seg_length_at"], symbolic="bundles a, b, x, y, stress, tone", shape="[x a y], a replaced by IPA b", unwind=unwind, stubs=STUBS))
 
+    hs.append(G.H("c14_replace_long_by_ipa", "segmental-change-keeps-prosody", "syll", G.T(HDR + """
+fn c14_replace_long_by_ipa() {
+    // a LONG segment replaced by a plain IPA segment: the run collapses to one copy, stress and tone stay
+    let a = any_seg(); let x = any_seg(); let y = any_seg(); let b = any_seg();
+    kani::assume(a != x && a != y);
+    let st = any_stress(); let tone: u16 = kani::any();
+    let mut sy = syll_of(&[x, a, a, y], st, tone);
+    let alphas: RefCell<HashMap<char, Alpha>> = RefCell::new(HashMap::new());
+    let r = sy.replace_segment(1, &b, &None, &alphas, P);
+    match r { Ok(lc) => assert!(lc == -1, "role=segmental-change-reports-length-change"), Err(_) => assert!(false, "role=unexpected-error") }
+    assert!(sy.segments.len() == 3 && sy.segments[0] == x && sy.segments[1] == b && sy.segments[2] == y, "role=one-for-one-replacement");
+    assert!(sy.stress == st && sy.tone == tone, "role=segmental-change-alters-stress-or-tone");
+    kani::cover!(tone != 0 && st != StressKind::Unstressed);
+    std::mem::forget(alphas); std::mem::forget(sy);
+}
+"""), functions=["Syllable::replace_segment", "Syllable::get_seg_length_at"], symbolic="bundles a, b, x, y, stress, tone", shape="[x a a y], long a replaced by IPA b", unwind=unwind, stubs=STUBS))
+
     # prosody-only output on a syllable: segments bit-identical
     dec = "    let la = match k % 3 { 0 => None, 1 => Some(true), _ => Some(false) };\n    let lb = match k / 3 { 0 => None, 1 => Some(true), _ => Some(false) };\n"
     hs.append(G.H("c14_prosody_keeps_segments", "prosodic-change-keeps-segments", "syll", G.T(HDR + """
